@@ -7,6 +7,7 @@ import (
 	"go/ast"
 	"go/token"
 	"net/http"
+	"strings"
 )
 
 // constString: the value of the package-level string constant `name` declared in rel
@@ -111,6 +112,24 @@ func (c *cfacts) writerFacts() {
 	if len(callsIn(fw.Body, "w.ResponseWriter.Write")) != 1 || fw.Else != nil {
 		c.fail("%s: the forwarding `w.ResponseWriter.Write(b)` is no longer exactly what the method test guards", where)
 	}
+	// func (w *responseWriter) WriteHeader(s int) { w.writeHeaderOnce.Do(func() { … }) } — what serialises the commit
+	where = rel + " (*responseWriter).WriteHeader"
+	fd = c.funcIn(rel, "responseWriter", "WriteHeader")
+	guard := "none"
+	if len(fd.Body.List) == 1 {
+		if es, ok := fd.Body.List[0].(*ast.ExprStmt); ok {
+			if ce, ok := es.X.(*ast.CallExpr); ok && len(ce.Args) == 1 {
+				if sel, ok := ce.Fun.(*ast.SelectorExpr); ok && sel.Sel.Name == "Do" {
+					if _, isLit := ce.Args[0].(*ast.FuncLit); isLit {
+						guard = c.fieldType(rel, "responseWriter", exprText(sel.X), where)
+					}
+				}
+			}
+		}
+	}
+	c.add("C13", "writerCommitGuard", "the type of the field whose `.Do(func(){…})` is the whole body of "+where+
+		" (\"none\" if the body is anything else): what makes a second, possibly concurrent, commit a no-op", leanString(guard))
+
 	// return w.Status() != 0
 	where = rel + " (*responseWriter).Written"
 	fd = c.funcIn(rel, "responseWriter", "Written")
@@ -151,4 +170,34 @@ func (c *cfacts) contextFacts() {
 	where = rel + " (*context).SetCookie"
 	call = c.theCall(c.funcIn(rel, "context", "SetCookie"), ".Header().Add", 2, where)
 	c.add("C18", "setCookieHeaderName", "the first argument of `Header().Add` in "+where, c.str(call.Args[0], where))
+}
+
+// fieldType: the declared type (as written) of the struct field selected by an expression like `w.writeHeaderOnce`
+func (c *cfacts) fieldType(rel, structName, selText, where string) string {
+	name := selText
+	if i := strings.LastIndex(selText, "."); i >= 0 {
+		name = selText[i+1:]
+	}
+	for _, d := range c.file(rel).Decls {
+		gd, ok := d.(*ast.GenDecl)
+		if !ok || gd.Tok != token.TYPE {
+			continue
+		}
+		for _, sp := range gd.Specs {
+			ts := sp.(*ast.TypeSpec)
+			st, ok := ts.Type.(*ast.StructType)
+			if !ok || ts.Name.Name != structName {
+				continue
+			}
+			for _, f := range st.Fields.List {
+				for _, n := range f.Names {
+					if n.Name == name {
+						return exprText(f.Type)
+					}
+				}
+			}
+		}
+	}
+	c.fail("%s: field %s of %s not found", where, name, structName)
+	return "none"
 }
